@@ -271,7 +271,7 @@ def r_leg_link(ck: Checker) -> None:
             tv_ = lp_.target.id
             clears = [st_ for st_ in lp_.body if isinstance(st_, ast.Expr) and norm(st_.value) == f"{tv_}._clear_parent()"]
             if clears:
-                ck.violation("R-LEG-LINK", dt, lp_, what, construct="detach: the parent link of every descendant is cleared (loop over self.dfs/bfs): with only_self the grandchildren, which stay "
+                ck.violation("R-LEG-LINK", dt, lp_, what, positive=True, construct="detach: the parent link of every descendant is cleared (loop over self.dfs/bfs): with only_self the grandchildren, which stay "
                              "attached below their own parents, report no parent any more")
                 return
     if len(loops) != 1 or not isinstance(loops[0].target, ast.Name):
@@ -386,7 +386,7 @@ def r_leg_live_links(ck: Checker) -> None:
         reads = [n for n in ast.walk(f.node) if isinstance(n, ast.Attribute) and n.attr in ("xpath", "_xpath")] + \
             [c for c in ast.walk(f.node) if isinstance(c, ast.Call) and dotted(c.func) == "getattr" and len(c.args) >= 2 and isinstance(c.args[1], ast.Constant) and c.args[1].value in ("_xpath", "xpath")]
         if reads:
-            ck.violation("R-LEG-IDENT", f, reads[0], what, construct=f"{CLS}.{q} reads the last calculated xpath: after the tree is changed (a new parent above the root, a subtree moved) "
+            ck.violation("R-LEG-IDENT", f, reads[0], what, positive=True, construct=f"{CLS}.{q} reads the last calculated xpath: after the tree is changed (a new parent above the root, a subtree moved) "
                          "the answer no longer agrees with the parent chain")
         else:
             ck.holds("R-LEG-IDENT", f, f.node, what)
@@ -398,7 +398,7 @@ def r_leg_live_links(ck: Checker) -> None:
         stores = [c for c in ast.walk(f.node) if isinstance(c, ast.Call) and dotted(c.func) in ("object.__setattr__", "setattr") and c.args and norm(c.args[0]) == "self"] + \
             [n for n in ast.walk(f.node) if isinstance(n, (ast.Attribute, ast.Subscript)) and isinstance(n.ctx, ast.Store) and norm(n.value).startswith("self")]
         if stores:
-            ck.violation("R-LEG-IDENT", f, stores[0], what, construct=f"{CLS}.{q} keeps a copy of its answer on the node ({norm(stores[0])[:50]}): replacing a child by a twin with equal "
+            ck.violation("R-LEG-IDENT", f, stores[0], what, positive=True, construct=f"{CLS}.{q} keeps a copy of its answer on the node ({norm(stores[0])[:50]}): replacing a child by a twin with equal "
                          "content leaves the copy pointing at the detached node")
         else:
             ck.holds("R-LEG-IDENT", f, f.node, what)
